@@ -37,7 +37,7 @@ P.update({
           TECH),
   'C04': (True, 'Writer.tla, WriterLin.tla',
           'TLC proves FlushOnExit on Writer.tla with the stop (before-trigger, then running:=False) enabled in every state; on the code a third thread delivers the stop through the real shutdownModifyUpdateSpeed() and every placement reachable with <= k pre-emptions at line granularity (plus random placements) is executed for all strategies, MIN_TIMESTAMP_LAG and rate limits with/without MAX_UPDATES_PER_SECOND_ON_SHUTDOWN; WriterLin.tla flags datapoints accepted before the stop that are still cached at thread exit.',
-          'reactor double whose running flag the stop thread clears (Twisted clears it in crash() during shutdown and then joins the pool); virtual time; a failing write() during the flush; other backend faults are C03's',
+          'reactor double whose running flag the stop thread clears (Twisted clears it in crash() during shutdown and then joins the pool); virtual time; a failing write() during the flush; other backend faults belong to C03',
           TECH),
 })
 
